@@ -1,6 +1,6 @@
 (* C03 property theorems (frame level). *)
 From Coq Require Import NArith List Bool.
-From PV Require Import Lib.Bytes Model.Frame Model.Reader Spec.Envelope Spec.C03 Proofs.EnvelopeFacts.
+From PV Require Import Lib.Bytes Model.Frame Model.Reader Model.Structs Spec.Envelope Spec.C03 Spec.C03s Proofs.EnvelopeFacts Proofs.C03sFacts.
 Import ListNotations.
 Open Scope N_scope.
 
@@ -15,6 +15,14 @@ Print Assumptions C03_reserialise.
 Theorem C03_eq : C03_eq_statement.
 Proof. exact EnvelopeFacts.C03_eq. Qed.
 Print Assumptions C03_eq.
+
+Theorem C03_netinfo : C03_netinfo_statement.
+Proof. exact C03sFacts.C03_netinfo. Qed.
+Print Assumptions C03_netinfo.
+
+Theorem C03_version : C03_version_statement.
+Proof. exact C03sFacts.C03_version. Qed.
+Print Assumptions C03_version.
 
 (* non-vacuity: a concrete frame meets the hypotheses, and the round trip computes *)
 Example C03_nonvacuous :
